@@ -361,9 +361,9 @@ func (u *Universe) sortOf(t types.Type) Sort {
 	case *types.Pointer, *types.Map, *types.Chan:
 		return SInt
 	case *types.Slice:
-		return SeqOf(u.sortOf(ut.Elem()))
+		return SeqOf(u.elemSort(ut.Elem()))
 	case *types.Array:
-		return SeqOf(u.sortOf(ut.Elem()))
+		return SeqOf(u.elemSort(ut.Elem()))
 	case *types.Interface:
 		return SAny
 	case *types.Signature:
@@ -377,6 +377,20 @@ func (u *Universe) sortOf(t types.Type) Sort {
 		return SAny
 	}
 	return SInt
+}
+
+// elemSort: sort of the elements of a slice/array of t. Sequences of sequences are weakly
+// supported by the solvers, so sequence-valued elements (strings, slices) are boxed to Int.
+func (u *Universe) elemSort(t types.Type) Sort {
+	s := u.sortOf(t)
+	if s.IsSeq() {
+		return SInt
+	}
+	return s
+}
+
+func (u *Universe) boxedElem(t types.Type) bool {
+	return t != nil && u.sortOf(t).IsSeq()
 }
 
 func (u *Universe) typeID(t types.Type) int {
